@@ -2,9 +2,14 @@
    pixel's final disparity lies within the requested global interval whatever refinement, filtering or
    occlusion/mismatch filling followed". *)
 From Coq Require Import ZArith QArith.
-From Pandora Require Import Model.Interval.
+From Pandora Require Import Model.Interval Spec.CrossCheck.
 Open Scope Z_scope.
 
 Definition in_global_interval (ny nx dmin dmax : Z) (st : dstate) : Prop :=
   forall r c, 0 <= r < ny -> 0 <= c < nx -> d_valid st r c = true ->
   exists d, d_map st r c = Some d /\ (inject_Z dmin <= d)%Q /\ (d <= inject_Z dmax)%Q.
+
+(* "valid pixel", on the products of a run: the validity mask carries none of the bits that mean invalid
+   (0, 1, 6, 7, 8, 9: Spec/CrossCheck.v [spec_valid], the test of C07 / C10 / C14) *)
+Definition dstate_of (disp : Z -> Z -> option Q) (mask : Z -> Z -> Z) : dstate :=
+  mkD disp (fun r c => spec_valid (mask r c)).
